@@ -536,6 +536,48 @@ def run_awkward(spec, tier, seed, res, P, methods, attrs, funcs):
                 if dim == 4:
                     src = ("def probe(arr):\n    out = 0.0\n    for event in arr:\n        for v in event:\n            out += v.boostZ(beta=0.25).t + v.tau + v.rapidity\n    return out\n")
                     P.run("awkward-lorentz", cell, src, (arr,), 1e3)
+            # ---- other legitimate forms of the same array (rotating with the system so that every form meets several
+            # systems): the other momentum spellings with the fields in reverse order and an extra field in between;
+            # a different physical layout; hand-zipped records that carry *both* spellings of a coordinate (the
+            # interpreter reads the generic name, compiled code must too)
+            import awkward as ak
+            import vector.backends.awkward as vba
+
+            salt = sum(map(ord, R.sysname(system))) + int(mom)
+            me = mom and any(B.MOM_SPELL[x] for x in R.field_names(system))
+            struct = [[0, 1], [], [2, 3, 4], [5]]
+            forms = []
+            forms.append(("spelling+reversed+extra", lambda: awk.build(system, rows, me, struct, route="with_name", spelling=1 + salt % 2,
+                                                                          extra=True, reverse_fields=True)))
+            kind = awk.PHYSICAL[salt % len(awk.PHYSICAL)]
+            forms.append((f"physical={kind}", lambda: awk.relayout(awk.build(system, rows, me, struct, route=("zip", "with_name")[salt % 2]), kind)))
+            if me:
+                def both():
+                    base = awk.build(system, rows, True, struct, route="with_name", spelling=salt % 3)
+                    cols = {f: base[f] for f in ak.fields(base)}
+                    for f in list(cols):
+                        g = B.GENERIC_OF.get(f)
+                        if g is not None:
+                            cols[g] = cols[f] * 1.0           # the generic name holds the real value ...
+                            cols[f] = cols[f] * 0.5 + 0.125   # ... the momentum spelling something else
+                    order = sorted(cols, key=lambda f: (salt + sum(map(ord, f))) % 7)
+                    return ak.zip({f: cols[f] for f in order}, with_name=f"Momentum{dim}D", behavior=vba.behavior)
+                forms.append(("both-spellings-of-a-coordinate", both))
+            for fname, build in forms:
+                try:
+                    arr = build()
+                except Exception as e:
+                    res.inconc(f"cannot build awkward form {fname}: {e!r}"[:200])
+                    continue
+                if arr is None:
+                    res.count("twin_layout_not_applicable")
+                    continue
+                cell = f"{R.sysname(system)}|{'mom' if me else 'gen'}|{fname.split('=')[0]}"
+                P.run("awkward-extract", cell, "def probe(arr):\n    return (arr[2][1], arr[0][0], arr[3][0].rho)\n", (arr,), 100.0)
+                src = ("def probe(arr):\n    s = 0.0\n    n = 0\n    for event in arr:\n        for v in event:\n"
+                       "            s += v.rho + v.scale(2.0).rho2" + (" + v.z" if dim >= 3 else "") + (" + v.t + v.tau" if dim == 4 else "") +
+                       "\n            n += 1\n    return (s, n)\n")
+                P.run("awkward-loop", cell, src, (arr,), 1e4)
 
 
 def run_shard(spec, tier, seed):
